@@ -488,6 +488,8 @@ func C16(p *core.Program, r *core.Report) {
 	}
 	r.Check(okKey, "single-instance/"+fname(rc)+"/key", "the registry key is the adapter's Address() for lookup and store", p.Pos(rc.Pos()), "", "a registry access does not use conv.Address()")
 
+	checkRegistryKeys(p, r)
+
 	// unregisterConvergence: deactivate precedes Delete, same instance
 	uc := p.Func(claPkg, "Manager", "unregisterConvergence")
 	nU := 0
@@ -802,4 +804,53 @@ func isSignalChan(v ssa.Value) bool {
 	}
 	st, ok := ch.Elem().Underlying().(*types.Struct)
 	return ok && st.NumFields() == 0
+}
+
+// checkRegistryKeys: the registry of adapters is a sync.Map whose key type is interface{}, so the compiler accepts
+// any key. Every access keyed by something else than the adapter's Address() string — or the key handed out by a Range
+// over the same map — silently misses the entry: a Delete that deletes nothing leaves a dead adapter listed.
+func checkRegistryKeys(p *core.Program, r *core.Report) {
+	isConvs := func(v ssa.Value) bool { return core.IsField(v, claPkg, "Manager", "convs") }
+	n := 0
+	for _, fn := range p.RepoFuncs() {
+		if fn.Pkg != p.Pkg(claPkg) {
+			continue
+		}
+		core.EachInstr(fn, func(in ssa.Instruction) {
+			c, ok := in.(ssa.CallInstruction)
+			if !ok {
+				return
+			}
+			name := core.CalleeName(c)
+			switch name {
+			case "sync.Map.Load", "sync.Map.Store", "sync.Map.Delete", "sync.Map.LoadAndDelete", "sync.Map.LoadOrStore":
+			default:
+				return
+			}
+			if !isConvs(core.CallRecv(c)) {
+				return
+			}
+			n++
+			k := core.Strip(core.Arg(c, 0))
+			okKey, why := false, "the key is neither conv.Address() nor the key of a Range over the registry"
+			if kc, isCall := k.(*ssa.Call); isCall && kc.Common().IsInvoke() && kc.Common().Method.Name() == "Address" {
+				okKey = true
+			} else if par, isPar := k.(*ssa.Parameter); isPar && fn.Parent() != nil && len(fn.Params) > 0 && par == fn.Params[0] {
+				// the closure is the callback of convs.Range in its parent
+				for _, rc := range core.CallsTo(fn.Parent(), "sync.Map.Range") {
+					if !isConvs(core.CallRecv(rc)) {
+						continue
+					}
+					if mc, isMC := core.Strip(core.Arg(rc, 0)).(*ssa.MakeClosure); isMC && mc.Fn == ssa.Value(fn) {
+						okKey = true
+					} else if f, isF := core.Strip(core.Arg(rc, 0)).(*ssa.Function); isF && f == fn {
+						okKey = true
+					}
+				}
+			}
+			r.Check(okKey, "registry-key/"+fname(fn)+"/"+strings.TrimPrefix(name, "sync.Map."), "every access to the adapter registry is keyed by the adapter's Address() (or by the key a Range over the registry handed out)", p.Pos(c.Pos()), "", why)
+		})
+	}
+	r.Min("adapter registry accesses", 5)
+	r.Count("adapter registry accesses", n)
 }
